@@ -107,7 +107,8 @@ def seqStep (model : Bool) (x : SeqCtx) (op obs : String) : SeqCtx × Option Str
       else if ws == ["states"] && res.startsWith "gocnt:" && x.prop == "C11" &&
          ((res.drop 6).toString.toNat?).any (· > x.cfg.maxGo) then some s!"C11 States reported {res}, maxGo={x.cfg.maxGo}"
       else none
-    let e3 := if sn.unstable then none else mon1.snap x.prop sn.go sn.q sn.dn sn.runs (ws == ["end"]) sn.bb
+    let e3 := if sn.unstable then none
+      else mon1.snap x.prop sn.go sn.q sn.dn sn.runs (ws == ["end"]) sn.bb (field obs "bbq" == some "1")
     let e1 := if x.prop == "C11" then e1 else none
     let nsub := if ws.head? == some "sub" then x.nsub + 1 else x.nsub
     let x1 := { x with mon := mon1, nsub := nsub }
@@ -162,7 +163,7 @@ def parseConc (c : Cfg) (obs : String) : Option ConcObs := do
   let q ← fieldNat obs "q"
   pure { maxGo := c.maxGo, hwm, gomax, before, afterDone, calls, tasks, dseq, done, st, go, q,
          unstable := (field obs "unstable").isSome, bb := field obs "wb" == some "na",
-         cstart := (fieldNat obs "cstart").getD 0 }
+         cstart := (fieldNat obs "cstart").getD 0, bbq := field obs "bbq" == some "1" }
 
 def burstStep (cfg : Cfg) (obs : String) : Option String :=
   match fieldNat obs "maxpeak", fieldInt obs "maxgocnt", fieldInt obs "maxtotal", fieldInt obs "badrep" with
